@@ -16,6 +16,18 @@ Streams
   order      direct oracle, in-process: the value set / name set that Script.infer / goto turn into
              Name objects is handed over in every (sampled) iteration order; the ordered result
              lists must be equal (goto: as sets)
+  dictkeys   the real strings._completions_for_dicts (+ _get_python_keys, _create_repr_string,
+             _get_string_prefix_and_quote) on stand-ins for inferred dict values (keys of every safe-value
+             type, shared keys, non-dicts, keys without a safe value, every way to open a literal after the
+             bracket) vs Model.Determinism.completionsForDicts with the sorts where the translator found
+             them; direct oracle on the real function: the dicts in another order -> same completions
+  keyorder   direct oracle for completions that come out of a UNION of inferred values: subscript
+             completion (`d[`, `d['`, `d["k`, `d[1` ...) on a name with 2..4 dict values (gen/c16_dictkeys.py:
+             branch returns, parameter with several call sites, conditional expression, loop over a list
+             of dicts, subscripted call, attribute assigned twice): complete() under every forced
+             iteration order of the value set (ForceOrder also hooks api/strings.py), on fresh Scripts of
+             one process with allocations in between, and in sessions on one Script; the same programs
+             also go through stream subproc
   subproc    direct oracle: the same queries in fresh subprocesses under several PYTHONHASHSEED
              values and with allocation noise before the import; ordered result lists must be equal
   session    direct oracle: permutations / repetitions of up to 8 queries on one Script (including
@@ -104,9 +116,18 @@ MANIFEST = dict(
          'memo holding a materialised container or the (generator, list) pair of the generator cache answers every '
          'reader the same (materialised_memo_replayable, generator_cache_replayable), one holding the generator '
          'itself does not (one_shot_memo_not_replayable); '
+         'the dict keys that complete() offers in a subscript (put in front of the result as they come out of '
+         'api/strings.py) are the same, in the same order, for every iteration order of the identity-hashed set of '
+         'inferred values, because the keys of ALL dicts are sorted together where they are consumed '
+         '(dict_keys_sorted_together_transcribed over the translator\'s reading of _completions_for_dicts / '
+         '_get_python_keys / Completion.complete; dict_completions_perm_invariant FULL, '
+         'dict_completions_src_perm_invariant; kernel-checked witness dict_completions_order_dependent_with_per_dict_sort: '
+         'a sort per dict is not enough; single_dict_hides_where_the_sort_is: on one dict both agree; '
+         'dict_completions_nodup); '
          'on acyclic dependency graphs the memoised evaluator answers independently of earlier queries '
          '(memo_order_independent_acyclic; 2-cycle witness). Tie: translator + correspondence on real Name '
-         'objects and real primitives + direct oracles (hash seeds, iteration orders, query permutations).',
+         'objects, real primitives and the real dict-key completion functions + direct oracles (hash seeds, '
+         'iteration orders of inferred value sets for infer / goto / subscript completion, query permutations).',
     note='Modelled not verified: CPython set/frozenset iteration order (universally quantified in the '
          'theorems, sampled by the oracles), which values inference produces, memo contents of real queries.',
     technique='Lean 4 proof over hand-written model + translator-generated constants + differential correspondence',
@@ -1001,7 +1022,7 @@ def stream_keyorder(ctx, cap, pcache):
     rng = ctx.subrng('keyorder')
     junk = []
     probed = set()
-    for label, spec, src, (line, col) in dictkey_programs(rng, ctx.size(14, 300)):
+    for label, spec, src, (line, col) in dictkey_programs(rng, ctx.size(10, 300)):
         mk = EmptyProject(pcache.dir, src)
         case = {'label': label, 'source': src, 'query': 'complete', 'line': line, 'column': col,
                 'empty_project': True}
@@ -1037,12 +1058,16 @@ def stream_keyorder(ctx, cap, pcache):
         ctx.count('keyorder', (src, line, col), nontrivial=nmax > 1 and nkeys > 1,
                   bucket='%s/typed=%s/dicts=%d/keys=%d' % (spec['shape'], spec['typed'] or 'nothing', min(nmax, 4), min(nkeys, 3)),
                   sample={'label': label, 'line': line, 'column': col, 'source': src, 'answer': short(base, 300)})
-        # ... and on one Script, other queries in between
+        # ... and on one Script, other queries in between (quick: every second program)
+        nprog = getattr(stream_keyorder, '_n', 0)
+        stream_keyorder._n = nprog + 1
+        if ctx.quick and nprog % 2:
+            continue
         nlines = src.count('\n') + 1
         q = ('complete', line, col)
         others = [('infer', line, max(col - len(spec['typed']) - 2, 0)), ('complete', nlines + 5, 0),
                   ('get_signatures', line, col), ('goto', 1, 2), ('help', line, 900)]
-        sessions = [[q, q], [q, rng.choice(others), q], [rng.choice(others), q, rng.choice(others), rng.choice(others), q]]
+        sessions = [[q, rng.choice(others), q], [rng.choice(others), q, rng.choice(others), rng.choice(others), q]]
         run_sessions(ctx, 'session', label, src, sessions, Fresh(src, mk), [], cap, probed,
                      extra_case={'empty_project': True}, mk=mk)
 
@@ -1836,6 +1861,10 @@ def run(ctx):
         'makes; which executions a query makes depends on the memo (a warm memo saves executions), which is not '
         'modelled - stream budget compares real answers, and the two ways this shows on the unchanged jedi are the '
         'known findings C16-single-query-over-budget-memoised / C16-same-named-completion-representative',
+        'dict key completions: a key is modelled by repr(key); isinstance(key, (str, bytes)) is read off the repr '
+        '(true for the safe values str, bytes, numbers, bool, None - stream dictkeys generates all of them); \\w of the '
+        'prefix regex is modelled on ASCII + Latin-1 letters; which values the expression before the bracket is inferred '
+        'to is not modelled (stream keyorder / subproc run the real complete())',
         'flow_analysis_enabled / is_analysis blocks are inline try/finally statements (no callable primitive): '
         'checked by fault injection on real queries (stream fault), not by the machine correspondence',
     ]
